@@ -231,6 +231,9 @@ func checkC18(c *Ctx, r *Report) {
 	if f := c.need(r, "C18.c", "LALR", "LALR1", "ShowLookAheadSet"); f != nil {
 		c18ShowLookAheadSet(c, r, f)
 	}
+	if f := c.need(r, "C18.c", "LALR", "LALR1", "showTrans"); f != nil {
+		c18ShowTrans(c, r, f)
+	}
 }
 
 func keysOfSS(m map[string][]string) []string {
